@@ -467,9 +467,38 @@ fn gr_grammar(rng: &mut Rng) -> String {
 // ------------------------------------------------------------------------------------------
 struct Stats { n: u64, nontriv: u64, oks: u64, failing: u64, panics: u64, diverged: u64, setdiff: u64, vm: u64, vmskipped: u64, contracts: u64, seen: HashSet<String> }
 
+/// Watchdog: the real code is expected to return; a case that keeps it busy for 10 s is reported on stderr as
+/// "HANG\t<case>" and the process is aborted (the closure-invocation budget bounds the interpreter, so the time is spent
+/// inside pest itself, e.g. building Pairs from a corrupted token queue).
+static PROGRESS: std::sync::atomic::AtomicU64 = std::sync::atomic::AtomicU64::new(0);   // odd while a case is running
+static CURRENT: std::sync::Mutex<String> = std::sync::Mutex::new(String::new());
+fn watchdog() {
+    use std::sync::atomic::Ordering::SeqCst;
+    std::thread::spawn(|| {
+        let mut last = 0u64; let mut since = std::time::Instant::now();
+        loop {
+            std::thread::sleep(std::time::Duration::from_millis(250));
+            let p = PROGRESS.load(SeqCst);
+            if p != last { last = p; since = std::time::Instant::now(); }
+            else if p % 2 == 1 && since.elapsed().as_secs() >= 10 {
+                eprintln!("HANG\t{}", CURRENT.lock().map(|g| g.clone()).unwrap_or_default());
+                std::process::abort();
+            }
+        }
+    });
+}
+fn guarded<T>(what: &str, f: impl FnOnce() -> T) -> T {
+    use std::sync::atomic::Ordering::SeqCst;
+    if let Ok(mut g) = CURRENT.lock() { g.clear(); g.push_str(what); }
+    PROGRESS.fetch_add(1, SeqCst);
+    let r = f();
+    PROGRESS.fetch_add(1, SeqCst);
+    r
+}
+
 fn emit(c: &Case, st: &mut Stats, w: &mut impl Write) -> Obs {
     let cs = c.show();
-    let o = observe(c);
+    let o = guarded(&cs, || observe(c));
     st.n += 1;
     match o.outcome { Outcome::Pairs(_) => st.oks += 1, Outcome::Parsing(..) => st.failing += 1, _ => {} }
     if o.text == "Panic" { st.panics += 1; }
@@ -493,7 +522,7 @@ fn vm_case(grammar: &str, rules: &[OptimizedRule], env: &[Prog], vm: &pest_vm::V
     let id = |n: &str| -> R { names.iter().position(|x| *x == n).unwrap_or(names.len()) as R };
     pest::set_call_limit(None);
     pest::set_error_detail(det);
-    let r = catch(|| vm.parse(&rules[0].name, input));
+    let r = guarded(&format!("{} (Vm::parse, grammar {})", c.show(), esc(grammar)), || catch(|| vm.parse(&rules[0].name, input)));
     let vo = match r {
         Err(_) => Outcome::Panic,
         Ok(Ok(pairs)) => match catch(|| tokens_of(pairs, &|r: &&str| id(r).to_string())) { Ok(t) => Outcome::Pairs(t), Err(_) => Outcome::Pairs("tokens-panic".into()) },
@@ -527,6 +556,7 @@ fn vm_grammar(grammar: &str, inputs: &[String], det: bool, st: &mut Stats, w: &m
 
 fn main() {
     quiet_panics();
+    watchdog();
     let mode = arg(1);
     let stdout = io::stdout();
     let mut w = BufWriter::with_capacity(1 << 20, stdout.lock());
